@@ -204,7 +204,8 @@ fn gen_entries(rng: &mut Rng, alphabet: &[&'static str], full: bool, big_freq: b
         }
     }
     let mut keys: Vec<Vec<&'static str>> = vec![];
-    for _ in 0..rng.range(0, 8) {
+    let n_keys = if rng.chance(1, 2) { rng.range(0, 6) } else { rng.range(6, 16) };
+    for _ in 0..n_keys {
         let key: Vec<&'static str> = if !keys.is_empty() && rng.chance(1, 3) {
             // extend an existing key: phrases that are prefixes of others
             let mut k = rng.pick(&keys).clone();
@@ -241,14 +242,31 @@ fn build_trie(entries: &[(Vec<Syllable>, Phrase)]) -> Box<dyn Dictionary> {
     Box::new(TrieOpenOptions::new().fuzzy_search(true).read_from(&bytes[..]).unwrap())
 }
 
-fn gen_dict(rng: &mut Rng, full: bool, big_freq: bool) -> GenDict {
+fn gen_dict(rng: &mut Rng, full: bool, big_freq: bool, dense: bool) -> GenDict {
     let mut pool: Vec<&'static str> = SYL_POOL.to_vec();
-    let n = rng.range(2, 5) as usize;
+    let n = if dense { rng.range(1, 2) as usize } else { rng.weighted(&[0, 5, 35, 30, 20, 10]) };
     let mut alphabet = vec![];
     for _ in 0..n {
         alphabet.push(pool.swap_remove(rng.below(pool.len() as u64) as usize));
     }
-    let entries = gen_entries(rng, &alphabet, full, big_freq);
+    let mut entries = gen_entries(rng, &alphabet, full, big_freq);
+    if dense {
+        // every key of length 2 and most of length 3 over the tiny alphabet: up to 100 paths, long candidate lists
+        let mut keys: Vec<Vec<&'static str>> = vec![];
+        for a in &alphabet {
+            for b in &alphabet {
+                keys.push(vec![*a, *b]);
+                for c in &alphabet {
+                    if rng.chance(3, 4) {
+                        keys.push(vec![*a, *b, *c]);
+                    }
+                }
+            }
+        }
+        for k in keys {
+            entries.push((k.iter().map(|s| syl(s)).collect(), Phrase::new(han_text(rng, k.len()), *rng.pick(&FREQS))));
+        }
+    }
     let (kind, dict): (&'static str, Box<dyn Dictionary>) = match rng.below(3) {
         0 => ("triebuf", Box::new(build_triebuf(&entries))),
         1 => ("trie", build_trie(&entries)),
@@ -281,16 +299,17 @@ struct GenComp {
     ops: Vec<String>,
 }
 
-fn gen_comp(rng: &mut Rng, gd: &GenDict, max_len: usize, fuzzy_partials: bool, invalid: Invalid) -> GenComp {
+fn gen_comp(rng: &mut Rng, gd: &GenDict, max_len: usize, fuzzy_partials: bool, invalid: Invalid, dense: bool) -> GenComp {
     let mut comp = Composition::new();
     let mut ops = vec![];
     let n = match rng.below(10) {
+        _ if dense => rng.range(8, max_len as i64) as usize,
         0 => rng.range(0, 1) as usize,
         1..=6 => rng.range(2, 7.min(max_len as i64)) as usize,
         _ => rng.range(5.min(max_len as i64), max_len as i64) as usize,
     };
     let gen_sym = |rng: &mut Rng| -> Symbol {
-        if rng.chance(3, 20) {
+        if rng.chance(if dense { 1 } else { 3 }, 20) {
             Symbol::Char(*rng.pick(&CHARS))
         } else {
             let s = *rng.pick(&gd.alphabet);
@@ -302,15 +321,34 @@ fn gen_comp(rng: &mut Rng, gd: &GenDict, max_len: usize, fuzzy_partials: bool, i
             }
         }
     };
-    for _ in 0..n {
-        let s = gen_sym(rng);
-        comp.push(s);
+    let multi: Vec<&Vec<Syllable>> = gd.entries.iter().map(|(k, _)| k).filter(|k| k.len() > 1).collect();
+    if !multi.is_empty() && rng.chance(1, 2) {
+        // concatenate dictionary keys (overlapping phrases -> several non-nested segmentations)
+        while comp.len() < n {
+            if rng.chance(1, 5) {
+                let s = gen_sym(rng);
+                comp.push(s);
+            } else {
+                let k = *rng.pick(&multi);
+                let from = if rng.chance(1, 4) { rng.below(k.len() as u64) as usize } else { 0 };
+                for s in &k[from..] {
+                    if comp.len() < n {
+                        comp.push(Symbol::Syllable(*s));
+                    }
+                }
+            }
+        }
+    } else {
+        for _ in 0..n {
+            let s = gen_sym(rng);
+            comp.push(s);
+        }
     }
     if invalid == Invalid::CoverChar && !comp.symbols().iter().any(|s| s.is_char()) && n > 0 {
         let i = rng.below(n as u64) as usize;
         comp.replace(i, Symbol::Char('a'));
     }
-    let n_ops = rng.range(0, 6);
+    let n_ops = if dense { rng.range(0, 2) } else { rng.range(0, 6) };
     for _ in 0..n_ops {
         if comp.is_empty() {
             break;
@@ -577,6 +615,34 @@ fn has_word(dict: &dyn Dictionary, eng: Eng, comp: &Composition) -> bool {
     })
 }
 
+/// the precondition `CompValid` of the theorems, evaluated on the composition *state*
+fn comp_valid(comp: &Composition) -> bool {
+    let len = comp.len();
+    let sels = comp.selections();
+    for s in sels {
+        if !(s.start < s.end && s.end <= len) {
+            return false;
+        }
+        if s.str.chars().count() != s.end - s.start {
+            return false;
+        }
+        if !(s.start..s.end).all(|i| comp.symbol(i).unwrap().is_syllable()) {
+            return false;
+        }
+        if (s.start + 1..s.end).any(|i| comp.gap(i) == Some(Gap::Break)) {
+            return false;
+        }
+    }
+    for (i, a) in sels.iter().enumerate() {
+        for b in &sels[i + 1..] {
+            if a.intersect(b) {
+                return false;
+            }
+        }
+    }
+    true
+}
+
 fn well_formed_on(dict: &dyn Dictionary, strat: LookupStrategy, comp: &Composition) -> bool {
     let len = comp.len();
     for s in 0..len {
@@ -591,7 +657,7 @@ fn well_formed_on(dict: &dyn Dictionary, strat: LookupStrategy, comp: &Compositi
     true
 }
 
-fn run_case(out: &mut Out, st: &mut Stats, stream: &str, eng: Eng, gd: &GenDict, gc: &GenComp, in_quantifier: bool) {
+fn run_case(out: &mut Out, st: &mut Stats, stream: &str, eng: Eng, gd: &GenDict, gc: &GenComp, oracle_class: Option<&str>) {
     let comp = &gc.comp;
     let rec = Rec { inner: gd.dict.as_ref(), log: RefCell::new(Table::new()) };
     // every key the engine can ask, so the model never sees a hole in the table
@@ -664,9 +730,19 @@ fn run_case(out: &mut Out, st: &mut Stats, stream: &str, eng: Eng, gd: &GenDict,
     if comp.symbols().iter().any(|s| s.is_char()) {
         st.inc("with_char");
     }
-    if !in_quantifier {
-        return;
+    if let Ok(k) = &kpaths {
+        if k.len() > 1 {
+            st.inc("kpaths_gt1");
+        }
+        if k.len() >= 100 {
+            st.inc("kpaths_100");
+        }
+        st.add("kpaths_total", k.len() as u64);
     }
+    let class = match oracle_class {
+        Some(c) => c,
+        None => return,
+    };
     // ---- the oracle: only inputs inside the quantifier of C03 (valid composition, a word per syllable,
     //      a well-formed dictionary)
     let mut v = Verdict { c03: vec![], c04: vec![] };
@@ -683,12 +759,12 @@ fn run_case(out: &mut Out, st: &mut Stats, stream: &str, eng: Eng, gd: &GenDict,
     }
     st.inc("oracle_evaluated");
     if let Some(first) = v.c03.first() {
-        out.oracle_fail("C03", "new", &format!("{} ({} failures) :: {}", first, v.c03.len(), describe(eng, gd, gc)));
+        out.oracle_fail("C03", class, &format!("{} ({} failures) :: {}", first, v.c03.len(), describe(eng, gd, gc)));
     }
     if let Some(first) = v.c04.first() {
-        out.oracle_fail("C04", "new", &format!("{} ({} failures) :: {}", first, v.c04.len(), describe(eng, gd, gc)));
-        // C03 owns these obligations in this round: report under C03 as well so its check fails
-        out.oracle_fail("C03", "new", &format!("[C04 half] {} :: {}", first, describe(eng, gd, gc)));
+        out.oracle_fail("C04", class, &format!("{} ({} failures) :: {}", first, v.c04.len(), describe(eng, gd, gc)));
+        // C03 discharges these obligations of C04: report under C03 as well so that its check fails
+        out.oracle_fail("C03", class, &format!("[C04 half] {} :: {}", first, describe(eng, gd, gc)));
     }
 }
 
@@ -706,7 +782,7 @@ fn main() {
     let mut out = Out::new();
     let mut rng = Rng::new(seed_from_env());
     let thorough = tier_is_thorough();
-    let n_dicts: usize = if thorough { 6000 } else { 260 };
+    let n_dicts: usize = if thorough { 30000 } else { 1500 };
     let comps_per_dict = 4;
     let max_len = if thorough { 24 } else { 12 };
     let mut st = Stats { m: BTreeMap::new() };
@@ -714,14 +790,15 @@ fn main() {
     let mut samples = 0;
     for di in 0..n_dicts {
         // stream selection per dictionary
-        let kind = rng.weighted(&[70, 12, 12, 6]);
+        let kind = rng.weighted(&[66, 12, 12, 6, 4]);
         let (full, big) = match kind {
-            0 => (true, false),
+            0 | 4 => (true, false),
             1 => (false, false),
             2 => (true, false),
             _ => (true, true),
         };
-        let gd = gen_dict(&mut rng, full, big);
+        let dense = kind == 4;
+        let gd = gen_dict(&mut rng, full, big, dense);
         for ci in 0..comps_per_dict {
             let invalid = if kind == 2 {
                 *rng.pick(&[Invalid::CoverChar, Invalid::EmptyRange, Invalid::Inverted, Invalid::WrongLen])
@@ -729,7 +806,7 @@ fn main() {
                 Invalid::None
             };
             let fuzzy_partials = rng.chance(1, 3);
-            let gc = gen_comp(&mut rng, &gd, max_len, fuzzy_partials, invalid);
+            let gc = gen_comp(&mut rng, &gd, if dense { max_len + 8 } else { max_len }, fuzzy_partials && !dense, invalid, dense);
             for eng in engines {
                 if fuzzy_partials && eng != Eng::Fuzzy && kind == 0 && rng.chance(1, 2) {
                     // partial syllables have no word under the standard strategy: keep some for `noword`
@@ -737,13 +814,20 @@ fn main() {
                 }
                 let hw = has_word(gd.dict.as_ref(), eng, &gc.comp);
                 let wf = well_formed_on(gd.dict.as_ref(), eng.strat(), &gc.comp);
-                let (stream, inq) = match (kind, hw && wf) {
-                    (2, _) => ("invalid", false),
-                    (3, true) => ("bigfreq", false),
-                    (_, true) => ("valid", true),
-                    (_, false) => ("noword", false),
+                let cv = comp_valid(&gc.comp);
+                // classification by *state*, not by generator intent:
+                //  valid      inside the quantifier and the theorems' hypotheses: any failure is new
+                //  invalidsel the composition holds a selection no engine can honour (F31: push_selection
+                //             accepts it, replace() keeps one over a replaced symbol): failures are known
+                //  noword     a syllable without a word (outside the quantifier; F02 panic / F30 spelling)
+                //  bigfreq    frequencies near i32::MAX (score arithmetic may overflow: outside FreqBound)
+                let (stream, class) = match (cv, hw && wf, kind == 3) {
+                    (false, _, _) => ("invalidsel", Some("F31-invalid-selection")),
+                    (true, false, _) => ("noword", None),
+                    (true, true, true) => ("bigfreq", None),
+                    (true, true, false) => ("valid", Some("new")),
                 };
-                run_case(&mut out, &mut st, stream, eng, &gd, &gc, inq);
+                run_case(&mut out, &mut st, stream, eng, &gd, &gc, class);
                 if samples < 4 && ci == 0 && di % 50 == 0 {
                     out.sample(&describe(eng, &gd, &gc));
                     samples += 1;
